@@ -77,6 +77,21 @@ ssize_t __wrap_read(int fd, void *buf, size_t count) {
   }
   return __real_read(fd, buf, count);
 }
+/* the clock the library sees while a response is being sent to a scripted peer: real start + the virtual time the
+   scripted select() calls have consumed (a per-response deadline in httpd must count that time) */
+int __real_gettimeofday(struct timeval *tv, void *tz);
+int __wrap_gettimeofday(struct timeval *tv, void *tz) {
+  static struct timeval base; static int have = 0;
+  int rc;
+  if (!(in_req && send_mode)) return __real_gettimeofday(tv, tz);
+  if (!have) { __real_gettimeofday(&base, NULL); have = 1; }
+  rc = 0;
+  if (tv) {
+    long us = base.tv_usec + (vwait_total % 1000) * 1000;
+    tv->tv_sec = base.tv_sec + vwait_total / 1000 + us / 1000000; tv->tv_usec = us % 1000000;
+  }
+  return rc;
+}
 int __wrap_select(int nfds, fd_set *r, fd_set *w, fd_set *e, struct timeval *tv) {
   if (in_req && send_mode && w && !r && http_fd >= 0 && FD_ISSET(http_fd, w) && tv) {
     int n = (int)strlen(send_dec); char d;
